@@ -186,38 +186,31 @@ impl ForwardedStreamSource {
     }
 
     async fn read_body(&mut self) -> io::Result<pipe::Data> {
-        let mut state = match std::mem::replace(&mut self.state, SourceState::Done) {
+        // The state stays in place while the read is pending: the pipe drops this future
+        // when the idle timer of the other direction fires, and polls a new one afterwards
+        let state = match &mut self.state {
             SourceState::TransferringBody(x) => x,
             _ => unreachable!(),
         };
 
         let result = state.source.read().await?;
 
-        self.state = SourceState::TransferringBody(state);
-        let state = match &mut self.state {
-            SourceState::TransferringBody(x) => x,
-            _ => unreachable!(),
-        };
-
         match (result, &state.body_length) {
             (pipe::Data::Chunk(mut bytes), BodyLength::Determined(n)) if state.sent_bytes < *n => {
                 let to_send = std::cmp::min(bytes.len() as u64, n - state.sent_bytes);
                 state.sent_bytes += to_send;
-                Ok(pipe::Data::Chunk(bytes.split_to(to_send as usize)))
-            }
-            (pipe::Data::Chunk(_) | pipe::Data::Eof, BodyLength::Determined(_)) => {
-                self.state = SourceState::Done;
-                Ok(pipe::Data::Eof)
+                return Ok(pipe::Data::Chunk(bytes.split_to(to_send as usize)));
             }
             (pipe::Data::Chunk(bytes), BodyLength::Chunked) => {
                 state.sent_bytes += bytes.len() as u64;
-                Ok(pipe::Data::Chunk(bytes))
+                return Ok(pipe::Data::Chunk(bytes));
             }
-            (pipe::Data::Eof, BodyLength::Chunked) => {
-                self.state = SourceState::Done;
-                Ok(pipe::Data::Eof)
-            }
+            (pipe::Data::Chunk(_) | pipe::Data::Eof, BodyLength::Determined(_))
+            | (pipe::Data::Eof, BodyLength::Chunked) => (),
         }
+
+        self.state = SourceState::Done;
+        Ok(pipe::Data::Eof)
     }
 }
 
